@@ -26,6 +26,9 @@ def dispatch (j : Json) : R Json := do
   else if op.startsWith "c16." then C16.handle op j
   else if op.startsWith "deps." then Deps.handle op j
   else if op.startsWith "fe." then FE.handle op j
+  else if op == "flags.parse" then Mage.flagsParse j
+  else if op == "front.parse" then Mage.frontParseOp j
+  else if op == "paths.ops" then Mage.pathsOp j
   else if op.startsWith "mage." then Mage.handle op j
   else if op.startsWith "c10." then C10.handle op j
   else if op.startsWith "c08." then C08.handle op j
